@@ -32,7 +32,7 @@ from fractions import Fraction
 
 import numpy as np
 
-from .. import tlc, tlaval
+from .. import tlc, tlaval, paths
 from ..report import Report
 
 FNS = ("cor", "correlation", "covariance", "variogram")
@@ -790,6 +790,233 @@ def task_int(job):
     return col.result()
 
 
+# ---------------------------------------------------------------------------
+# part E: histories of assignments on one model object
+
+# class -> (name of the shape parameter, its values for the spec's indices 1, 2, tolerance)
+HIST_CLASSES = {
+    "Exponential": (None, (), TOL), "Gaussian": (None, (), TOL),
+    "Stable": ("alpha", (0.5, 1.5), TOL), "Matern": ("nu", (0.5, 2.5), TOL),
+    "Integral": ("nu", (1.0, 2.5), TOL), "Rational": ("alpha", (1.0, 2.5), TOL),
+    # integral scale by quadrature: same relations, at quadrature accuracy
+    "Spherical": (None, (), 1e-6), "SuperSpherical": ("nu", (1.0, 2.0), 1e-6),
+}
+HIST_INV = ["HistTypeOK", "HistPrescribed"]
+
+
+class HistModel:
+    """One real model driven by the operations of part E."""
+
+    def __init__(self, name, st):
+        import gstools as gs
+
+        self.name = name
+        self.cls = getattr(gs, name)
+        self.optname, self.optvals, self.tol = HIST_CLASSES[name]
+        self.kappa_cache = {}
+        self.kw = self.kwargs(st, qf(st["len"]["q"]))
+        with warnings.catch_warnings():
+            warnings.simplefilter("ignore")
+            self.m = self.cls(**self.kw)
+
+    def optkw(self, o):
+        return {self.optname: self.optvals[o - 1]} if self.optname else {}
+
+    def kwargs(self, st, len_scale):
+        d = st["dim"]
+        kw = dict(dim=d, var=2.0, nugget=1.0, len_scale=len_scale, rescale=qf(st["res"]), **self.optkw(st["opt"]))
+        if d > 1:
+            kw["anis"] = [qf(a) for a in st["anis"]]
+        return kw
+
+    def kappa(self, o, dim):
+        """Integral scale of the unit model (len_scale = rescale = 1), a fresh object."""
+        if o == 0:
+            return 1.0
+        if (o, dim) not in self.kappa_cache:
+            with warnings.catch_warnings():
+                warnings.simplefilter("ignore")
+                self.kappa_cache[(o, dim)] = float(self.cls(dim=dim, len_scale=1.0, rescale=1.0, **self.optkw(o)).integral_scale)
+        return self.kappa_cache[(o, dim)]
+
+    def apply(self, op, toggle):
+        m, n, v = self.m, op["name"], [qf(x) for x in op["v"]]
+        with warnings.catch_warnings():
+            warnings.simplefilter("ignore")
+            if n == "SetLen":
+                m.len_scale = v[0]
+            elif n == "SetRescale":
+                m.rescale = v[0]
+            elif n == "SetOpt":
+                setattr(m, self.optname, self.optvals[int(v[0]) - 1])
+            elif n == "SetDim":
+                m.dim = int(v[0])
+            elif n == "SetInt":
+                m.integral_scale = v[0] if len(v) == 1 and toggle else v
+            else:
+                raise AssertionError(n)
+
+    def expected(self, st):
+        d = st["dim"]
+        f = self.kappa(st["opt"], d) / self.kappa(st["len"]["o"], d)
+        return {"integral_scale": qf(st["intq"]) * f, "integral_scale_vec": [qf(x) * f for x in st["vec"]],
+                "len_scale": qf(st["len"]["q"]) / self.kappa(st["len"]["o"], d), "rescale": qf(st["res"]),
+                "anis": [qf(a) for a in st["anis"]], "dim": d}
+
+    def observed(self, m=None):
+        m = self.m if m is None else m
+        with warnings.catch_warnings():
+            warnings.simplefilter("ignore")
+            return {"integral_scale": float(m.integral_scale), "integral_scale_vec": [float(x) for x in m.integral_scale_vec],
+                    "len_scale": float(m.len_scale), "rescale": float(m.rescale), "anis": [float(a) for a in m.anis],
+                    "dim": int(m.dim)}
+
+
+def replay_history(col, name, sts, every, toggle):
+    """sts: spec states of one behaviour (the first is the initial one).  every: read the
+    observables after every step (else only at the end)."""
+    hm = HistModel(name, sts[0]["isc"])
+    ops = []
+    for i, node in enumerate(sts):
+        st = node["isc"]
+        if i:
+            ops.append(st["op"])
+            try:
+                hm.apply(st["op"], toggle)
+            except Exception as e:  # noqa: BLE001
+                col.violation("history:%s:%s:raises" % (name, st["op"]["name"]),
+                              "%s: %s raised %r after %s" % (name, tlaval.to_tla(st["op"]), e, [tlaval.to_tla(o) for o in ops[:-1]]),
+                              {"class": name, "init": _pubst(sts[0]["isc"]), "ops": _pubst(ops), "every": every, "toggle": toggle})
+                return i
+        last = i == len(sts) - 1
+        if not (every or last):
+            continue
+        exp, obs = hm.expected(st), hm.observed()
+        if last:
+            # a freshly constructed model with the resulting parameters reports the same
+            with warnings.catch_warnings():
+                warnings.simplefilter("ignore")
+                fresh = hm.cls(**hm.kwargs(st, exp["len_scale"]))
+            exp = dict(exp, **{"fresh.integral_scale": float(fresh.integral_scale)})
+            obs = dict(obs, **{"fresh.integral_scale": obs["integral_scale"]})
+        col.cases += 1
+        for k in exp:
+            col.evals += 1
+            if differs(obs[k], exp[k], hm.tol).any():
+                col.violation("history:%s:%s:%s" % (name, st["op"]["name"], k.split(".")[-1]),
+                              "%s(%s): after %s%s %s is %r, expected %r (integral_scale = kappa(shape) * len_scale / rescale "
+                              "of the current parameters)"
+                              % (name, hm.kw, [tlaval.to_tla(o) for o in ops] or "construction",
+                                 " (observables read after every step)" if every else "", k, obs[k], exp[k]),
+                              {"class": name, "init": _pubst(sts[0]["isc"]), "ops": _pubst(ops), "every": every, "toggle": toggle,
+                               "state": _pubst(st), "expected": exp, "observed": obs})
+                return i
+    return len(sts) - 1
+
+
+def task_hist(job):
+    name, pidx, rseed = job
+    col = Collect()
+    graph = _G["hist"][2 if HIST_CLASSES[name][0] else 1]
+    nodes, pathlist = graph
+    for j in pidx:
+        sts = [nodes[i] for i in pathlist[j]]
+        steps = replay_history(col, name, sts, every=(j % 2 == 0), toggle=(j // 2) % 2)
+        col.keys += 1 if steps else 0
+        if not col.samples and steps >= 2 and any(s["isc"]["op"]["name"] == "SetRescale" for s in sts):
+            hm = HistModel(name, sts[0]["isc"])
+            for s in sts[1:]:
+                hm.apply(s["isc"]["op"], 0)
+            col.samples.append({"class": name, "constructed": hm.kw, "ops": [tlaval.to_tla(s["isc"]["op"]) for s in sts[1:]],
+                                "expected integral_scale (TLC rational x measured kappa)": hm.expected(sts[-1]["isc"])["integral_scale"],
+                                "observed": hm.observed()["integral_scale"]})
+    return col.result()
+
+
+# ---------------------------------------------------------------------------
+# part F: the truncated-power-law superposition
+
+TPL_CLASSES = [  # (class, extra kwargs, class of the modes, kwargs of the modes)
+    ("TPLGaussian", {}, "Gaussian", {}),
+    ("TPLExponential", {}, "Exponential", {}),
+    ("TPLStable", {"alpha": 1.5}, "Stable", {"alpha": 1.5}),
+    ("TPLStable", {"alpha": 2.0}, "Stable", {"alpha": 2.0}),
+    ("TPLStable", {"alpha": 0.5}, "Stable", {"alpha": 0.5}),
+    ("Integral", {}, "Gaussian", {}),   # nu/2 E_{1+nu/2}: the a = 0 Gaussian-mode superposition with 2H = nu
+]
+TPL_TOL = 1e-11
+
+
+def task_tpl(job):
+    import gstools as gs
+
+    ci, lo, hi = job
+    cname, extra, mname, mextra = TPL_CLASSES[ci]
+    cls, mode = getattr(gs, cname), getattr(gs, mname)
+    col = Collect()
+    kmax = _G["kmax"]
+    for si in range(lo, hi):
+        c = _G["tpl"][si]
+        a, L, s_, h2 = qf(c["a"]), qf(c["L"]), qf(c["s"]), qf(c["h2"])
+        lu, ll, wup, wlow = qf(c["lu"]), qf(c["ll"]), qf(c["wup"]), qf(c["wlow"])
+        if cname == "Integral":
+            if a != 0.0:
+                continue
+            kw = dict(dim=1 + si % 3, var=2.0, nugget=1.0, len_scale=L, rescale=s_, nu=h2)
+            low0 = {"nu": h2}
+        else:
+            kw = dict(dim=1 + si % 3, var=2.0, nugget=1.0, len_scale=L, rescale=s_, hurst=h2 / 2, len_low=a, **extra)
+            low0 = dict(hurst=h2 / 2, len_low=0.0, **extra)
+        with warnings.catch_warnings():
+            warnings.simplefilter("ignore")
+            m = cls(**kw)
+            r = np.unique(np.concatenate([np.arange(0, kmax + 1) / 8.0 * L, lu * 2.0 ** -np.arange(1, 41),
+                                          ll * 2.0 ** -np.arange(0, 24, 3), np.array([2.0, 4.0, 16.0]) * lu]))
+            rho = np.asarray(m.correlation(r), dtype=float)
+            checks = []
+            # the documented closed form through the model's own normalised mode cor(h)
+            sup = wup * np.asarray(m.cor(r / lu), dtype=float)
+            if a > 0:
+                sup = sup - wlow * np.asarray(m.cor(r / ll), dtype=float)
+            checks.append(("superposition", "correlation(r) = wup*cor(r/lu) - wlow*cor(r/ll)", rho, sup, "eq"))
+            # ... and through models without lower truncation (fresh objects, other rescale)
+            up = cls(len_scale=lu, rescale=1.0, **low0)
+            sup2 = wup * np.asarray(up.correlation(r), dtype=float)
+            if a > 0:
+                low = cls(len_scale=a, rescale=s_, **low0)
+                sup2 = sup2 - wlow * np.asarray(low.correlation(r), dtype=float)
+            checks.append(("superposition-models", "correlation(r) = wup*rho0(r; lu) - wlow*rho0(r; ll)", rho, sup2, "eq"))
+            checks.append(("variogram", "variogram(r) = var*(1 - superposition) + nugget",
+                           np.asarray(m.variogram(r), dtype=float), 2.0 * (1.0 - sup) + 1.0, "eq"))
+            # an average of the modes lies between the modes of the truncation scales
+            mu = np.asarray(mode(len_scale=lu, rescale=1.0, **mextra).correlation(r), dtype=float)
+            checks.append(("mode-bound-upper", "correlation(r) <= mode(r; lu)", rho, mu, "le"))
+            ml = np.asarray(mode(len_scale=ll, rescale=1.0, **mextra).correlation(r), dtype=float) if a > 0 else np.where(r > 0, 0.0, 1.0)
+            checks.append(("mode-bound-lower", "mode(r; ll) <= correlation(r)", ml, rho, "le"))
+            checks.append(("monotone", "correlation non-increasing in r", rho[1:], rho[:-1], "le"))
+        col.cases += 1
+        col.keys += 1
+        for key, what, lhs, rhs, rel in checks:
+            col.evals += len(lhs)
+            if rel == "eq":
+                bad = differs(lhs, rhs, TPL_TOL)
+            else:
+                bad = ~(lhs <= rhs + TPL_TOL)
+            if bad.any():
+                i = int(np.flatnonzero(bad)[0])
+                col.violation("tpl:%s:%s" % (cname, key),
+                              "%s(%s): %s fails at r = %r: %r vs %r  (lu = %r, ll = %r, wup = %s, wlow = %s from TLC)"
+                              % (cname, kw, what, float(r[min(i, len(r) - 1)]), float(lhs[i]), float(rhs[i]), lu, ll,
+                                 "%d/%d" % tuple(c["wup"]), "%d/%d" % tuple(c["wlow"])),
+                              {"class": cname, "kwargs": kw, "case": _pubst(c), "relation": what, "lags": r.tolist(),
+                               "lhs": lhs.tolist(), "rhs": rhs.tolist()})
+        if not col.samples and a > 0 and s_ != 1.0:
+            col.samples.append({"class": cname, "kwargs": kw, "TLC": {k: "%d/%d" % tuple(c[k]) for k in ("lu", "ll", "wup", "wlow")},
+                                "r": r[-6:-3].tolist(), "correlation": rho[-6:-3].tolist(),
+                                "wup*cor(r/lu)-wlow*cor(r/ll)": sup[-6:-3].tolist()})
+    return col.result()
+
+
 def _pubst(st):
     return json.loads(json.dumps(st, default=list))
 
@@ -801,7 +1028,8 @@ def _jsonable_sample(o):
 def _dispatch(job):
     kind, payload = job
     try:
-        return kind, {"user": task_user, "poly": task_poly, "relation": task_relation, "int": task_int}[kind](payload)
+        return kind, {"user": task_user, "poly": task_poly, "relation": task_relation, "int": task_int,
+                      "hist": task_hist, "tpl": task_tpl}[kind](payload)
     except RecursionError:
         # evaluation of a model function does not terminate: the derivation of the missing
         # functions is cyclic (C03: every function bottoms out in a defined one)
@@ -907,6 +1135,8 @@ def run(pid, tier, seed, replay=None):
     with tlc.Scratch() as sc:
         mod, cfg, kmax = mc_text(tier, rng)
         sc.write("MC_Derive.tla", mod)
+        # the same constants with a single shape index (classes without a shape parameter)
+        sc.write("MC_Derive1.tla", mod.replace("MODULE MC_Derive ", "MODULE MC_Derive1 ").replace("McHistOpts == {1, 2}", "McHistOpts == {1}"))
         w = 2
         jobs = [
             ("graph", sc, "MC_Derive", cfg_part(cfg, "InitGraph", "NextGraph", GRAPH_INVS),
@@ -917,12 +1147,18 @@ def run(pid, tier, seed, replay=None):
              dict(workers=w, timeout=1800, dump=("states", sc.path("poly.dump")))),
             ("intscale", sc, "MC_Derive", cfg_part(cfg, "InitInt", "Stutter", INT_INVS),
              dict(workers=w, timeout=1800, dump=("states", sc.path("int.dump")))),
+            ("inthist2", sc, "MC_Derive", cfg_part(cfg, "InitHist", "NextHist", HIST_INV) + "PROPERTY HistCoupling\n",
+             dict(workers=1, timeout=1800, dump=("dot", sc.path("hist2.dot")))),
+            ("inthist1", sc, "MC_Derive1", cfg_part(cfg, "InitHist", "NextHist", HIST_INV) + "PROPERTY HistCoupling\n",
+             dict(workers=1, timeout=1800, dump=("dot", sc.path("hist1.dot")))),
+            ("tpl", sc, "MC_Derive", cfg_part(cfg, "InitTpl", "Stutter", ["TplSound"]),
+             dict(workers=1, timeout=600, dump=("states", sc.path("tpl.dump")))),
         ]
         t0 = time.time()
-        results = tlc.run_many(jobs, parallel=4)
+        results = tlc.run_many(jobs, parallel=7)
         print("TLC: %d jobs in %.1fs" % (len(jobs), time.time() - t0))
         design_ok = True
-        for key in ("graph", "variant", "poly", "intscale"):
+        for key in ("graph", "variant", "poly", "intscale", "inthist2", "inthist1", "tpl"):
             r = results[key]
             tlc.must_pass(r, "Derive." + key)
             rep.add_tlc("Derive.%s" % key, r)
@@ -938,6 +1174,14 @@ def run(pid, tier, seed, replay=None):
         vstates = tlc.read_state_dump(sc.path("variant.dump"))
         pstates = tlc.read_state_dump(sc.path("poly.dump"))
         istates = tlc.read_state_dump(sc.path("int.dump"))
+        tstates = tlc.read_state_dump(sc.path("tpl.dump"))
+        hist = {}
+        for nopt in (1, 2):
+            nodes, edges, inits = tlc.read_dot(sc.path("hist%d.dot" % nopt))
+            pl, left = paths.edge_cover(nodes, edges, inits, rng=random.Random(rng.randrange(2**31)), merge=True)
+            if left:
+                raise tlc.MachineryError("history graph: %d transitions not covered" % left)
+            hist[nopt] = (nodes, pl)
         print("parsed %d + %d + %d + %d dumped states in %.1fs" % (len(gstates), len(vstates), len(pstates), len(istates),
                                                                   time.time() - t0))
     # part A: per subset D the verdict and the grounding of every function
@@ -965,7 +1209,8 @@ def run(pid, tier, seed, replay=None):
     groups = group_cases(vstates)
     ints = sorted((st["isc"] for st in istates), key=lambda s: tlaval.to_tla(s))
     rng.shuffle(ints)
-    _G.update(tier=tier, kmax=kmax, ground=ground, poly=poly, polyraw=polyraw, groups=groups, int=ints,
+    tpls = sorted((st["vc"] for st in tstates), key=lambda c: tlaval.to_tla(c))
+    _G.update(tier=tier, kmax=kmax, ground=ground, poly=poly, polyraw=polyraw, groups=groups, int=ints, hist=hist, tpl=tpls,
               nspatial_value=40 if big else 6, nspatial_rel=1200 if big else 150)
     work = []
     for D in sorted(verdict, key=lambda s: (len(s), sorted(s))):
@@ -980,11 +1225,23 @@ def run(pid, tier, seed, replay=None):
     for name in INT_CLASSES:
         for lo in range(0, len(ints), chunk):
             work.append(("int", (name, lo, min(len(ints), lo + chunk))))
+    # part E: every class replays a share of the transition-covering behaviours (all of them
+    # in thorough); together the classes cover every transition several times
+    for ci, name in enumerate(HIST_CLASSES):
+        npaths = len(hist[2 if HIST_CLASSES[name][0] else 1][1])
+        idx = list(range(npaths))
+        rng.shuffle(idx)
+        quad = HIST_CLASSES[name][2] > TOL
+        share = idx if (big and not quad) else idx[: max(60, npaths // (12 if quad else 3))]
+        for lo in range(0, len(share), 150):
+            work.append(("hist", (name, share[lo:lo + 150], rng.randrange(2**31))))
+    for ci in range(len(TPL_CLASSES)):
+        work.append(("tpl", (ci, 0, len(tpls))))
     only = os.environ.get("VERIF_ONLY")
     if only:
         work = [w_ for w_ in work if w_[0] in only.split(",")]
     # long tasks first
-    work.sort(key=lambda j: {"relation": 0, "user": 1, "poly": 2, "int": 3}[j[0]])
+    work.sort(key=lambda j: {"relation": 0, "hist": 1, "user": 2, "poly": 3, "int": 4, "tpl": 5}[j[0]])
     import multiprocessing as mp
 
     t0 = time.time()
@@ -1000,10 +1257,10 @@ def run(pid, tier, seed, replay=None):
             for msg in res["drift"]:
                 rep.drift_msg(msg)
             for s in res["samples"]:
-                cap = {"user": 3, "poly": 2, "relation": 2, "int": 1}[kind]
+                cap = {"user": 3, "poly": 2, "relation": 2, "int": 1, "hist": 2, "tpl": 2}[kind]
                 s = _jsonable_sample(dict(s, part=kind))
                 if s not in rep.samples and sum(1 for x in rep.samples if x.get("part") == kind) < cap:
-                    rep.sample(s, cap=12)
+                    rep.sample(s, cap=16)
     print("replay: %d tasks in %.1fs: %s" % (len(work), time.time() - t0, per_kind))
     base = 0
     for kind in sorted(per_kind):
